@@ -123,6 +123,13 @@ theorem vol_additive_k (c : Corners K) :
     signedVolume (splitLower c) + signedVolume (splitUpper c) = signedVolume c :=
   signedVolume_split c
 
+/-- The same for subdivision in the `i` and in the `j` direction; hence for every refinement
+obtained by repeated midpoint bisection in any directions. -/
+theorem vol_additive_ij (c : Corners K) :
+    signedVolume (splitLowerI c) + signedVolume (splitUpperI c) = signedVolume c ∧
+    signedVolume (splitLowerJ c) + signedVolume (splitUpperJ c) = signedVolume c :=
+  ⟨signedVolume_splitI c, signedVolume_splitJ c⟩
+
 end
 
 section
@@ -247,6 +254,22 @@ instance : NatCast Rat := ⟨fun n => (n : Rat)⟩
 
 example : signedVolume twisted ≠ 0 ∧
     signedVolume (splitLower twisted) + signedVolume (splitUpper twisted) = signedVolume twisted := by
+  decide +kernel
+
+example : signedVolume (splitLowerI twisted) + signedVolume (splitUpperI twisted) = signedVolume twisted ∧
+    signedVolume (splitLowerJ twisted) + signedVolume (splitUpperJ twisted) = signedVolume twisted ∧
+    signedVolume (splitLowerI twisted) ≠ signedVolume (splitUpperI twisted) := by
+  decide +kernel
+
+/-- **Witness (model mirrors the code as it is).**  When DX varies with `j` the hypothesis
+`DependsOnI` of `dxdydz_vs_cornerpoint` fails and the generated corner-point cell is *not* the
+DX·DY·DZ box: 2×2×1 grid, DX = 10 10 / 20 20, DY = 10, DZ = 1 — cell (0,0) gets volume 150, not
+100 (the real `EclipseGrid(deck).getCellVolume(0,0,0)` returns 150 as well). -/
+theorem dx_varying_in_j_witness :
+    let d : Dims := ⟨2, 2, 1⟩
+    let dx : Nat → Rat := fun g => ([10, 10, 20, 20] : List Rat).getD g 0
+    signedVolume (cellCorners d (coordDTops d dx (fun _ => 10) (fun _ => 1) (fun _ => 1000))
+      (zcornDTops d (fun _ => 1) (fun _ => 1000)) 0 0 0) = 150 := by
   decide +kernel
 
 /-- A 2×1×2 DX/DY/DZ/TOPS input over ℚ satisfying the hypotheses of `dxdydz_vs_cornerpoint`
